@@ -65,7 +65,19 @@ theorem rename_ancestor_refused (hs : List Path) (o n : Path)
     HiddenFS.translate hs (.rename o n) = .error .hiddenPerm := by
   simp only [HiddenFS.translate, bind, Except.bind, hguard_of_visible _ hvis, hanc]
 
+/-- T11.3b nor can content be brought TO a hidden location: `Rename` onto a (missing) parent
+directory of a hidden path is refused without any base call (repair D21: before it, renaming a
+directory `/x` containing `h` onto a missing `/a` with `/a/h` hidden made `/a/h` exist). -/
+theorem rename_onto_ancestor_refused (hs : List Path) (o n : Path)
+    (hvo : HiddenFS.isHidden o hs = .ok false) (hpo : HiddenFS.isParentOfHidden o hs = .ok false)
+    (hvn : HiddenFS.isHidden n hs = .ok false) (hanc : HiddenFS.isParentOfHidden n hs = .ok true) :
+    HiddenFS.translate hs (.rename o n) = .error .hiddenPerm := by
+  simp only [HiddenFS.translate, bind, Except.bind, hguard_of_visible _ hvo, hpo,
+    hguard_of_visible _ hvn, hanc]
+
 /-! non-vacuity -/
+example : HiddenFS.translate (HiddenFS.mk ["/a/h".toList]) (.rename "/x".toList "/a".toList)
+    = .error .hiddenPerm := by decide
 example : runCalls (HiddenFS.mk ["/d/h".toList]) "/d".toList [2, 2, 2]
     ["a".toList, "h".toList, "b".toList, "c".toList]
     = ([.names ["a".toList, "b".toList], .names ["c".toList], .eof], []) := by decide
